@@ -50,7 +50,14 @@ pub fn facts(args: &[String]) -> i32 {
     let home = private_home("c16");
     let shipped = shipped_constants(&repo);
     let sources = shipped_sources(&repo);
-    let (db, _) = build_db();
+    // --session reopened: the database as every start of `any` but the first has it -- the on-disk index of the (private) data
+    // directory, built by one start and opened again by the next
+    let db = if arg_value(args, "--session").as_deref() == Some("reopened") {
+        drop(Db::open().expect("first start on the private data directory"));
+        Db::open().expect("second start on the same data directory")
+    } else {
+        build_db().0
+    };
     let mut out = Out::create(&outp);
     let mut n = 0usize;
     for line in read_lines(&inp) {
